@@ -701,7 +701,8 @@ class World:
                  tidSet=t is not None, tseq=-1 if t is None else t.seq_num.value)
         if side == "S":
             # qlen: the PDUs really queued (nready is the handler's own counter, which the API calls consult)
-            d.update(ackCnt=h.positive_ack_counter, qlen=len(h._pdus_to_be_sent))
+            q = getattr(h, "_pdus_to_be_sent", None)       # (a private name: fall back to the counter if it is ever renamed)
+            d.update(ackCnt=h.positive_ack_counter, qlen=len(q) if q is not None else h.num_packets_ready)
         else:
             d.update(ackCnt=h.positive_ack_counter, nakCnt=h.nak_activity_counter, chkCnt=h.current_check_counter,
                      deferred=bool(h.deferred_lost_segment_procedure_active))
